@@ -1,11 +1,17 @@
 package interceptor
 
 import (
+	"context"
+
 	"go.temporal.io/api/common/v1"
 	"go.temporal.io/api/workflowservice/v1"
 	"go.temporal.io/server/api/adminservice/v1"
 	"go.temporal.io/server/common/api"
 	"go.temporal.io/server/common/log"
+	"google.golang.org/grpc"
+	"google.golang.org/grpc/metadata"
+
+	s2scommon "github.com/temporalio/s2s-proxy/common"
 )
 
 // ---------------------------------------------------------------------------
@@ -123,4 +129,72 @@ func verifHarness_C14_methodFilter() {
 		verifAssert(tr.MatchMethod(api.AdminServicePrefix+m), "admin-service-methods-are-translated")
 	}
 	verifReach("method-filter-checked")
+}
+
+// verifHarness_C14_dispatch: the translation interceptor asks every translator, with the call's *full*
+// method name, whether it applies — before the handler for the request and after it for the response.
+// The real method filters are used (the search-attribute translator leaves WorkflowService calls alone,
+// the namespace translator applies to both services); the translations themselves are counted only.
+type c14Spy struct {
+	Translator
+	reqs, resps int
+	sawReq      any
+	sawResp     any
+}
+
+func (s *c14Spy) TranslateRequest(o any) (bool, error)  { s.reqs++; s.sawReq = o; return false, nil }
+func (s *c14Spy) TranslateResponse(o any) (bool, error) { s.resps++; s.sawResp = o; return false, nil }
+
+func verifHarness_C14_dispatch() {
+	sa := &c14Spy{Translator: NewSearchAttributeTranslator(log.NewNoopLogger(), nil, nil)}
+	ns := &c14Spy{Translator: NewNamespaceNameTranslator(log.NewNoopLogger(), map[string]string{"a": "b"}, map[string]string{"b": "a"})}
+	var trs []Translator
+	if verifChoose("translator-order", 2) == 0 {
+		trs = []Translator{ns, sa}
+	} else {
+		trs = []Translator{sa, ns}
+	}
+	ic := NewTranslationInterceptor(log.NewNoopLogger(), trs)
+	wf := verifMethodsOf((*workflowservice.WorkflowServiceClient)(nil))
+	ad := verifMethodsOf((*adminservice.AdminServiceClient)(nil))
+	service := verifChoose("service", 3)
+	var full string
+	switch service {
+	case 0:
+		full = api.WorkflowServicePrefix + wf[verifChoose("workflow-method", len(wf))]
+	case 1:
+		full = api.AdminServicePrefix + ad[verifChoose("admin-method", len(ad))]
+	default:
+		full = "/grpc.health.v1.Health/Check"
+	}
+	bypass := verifChoose("bypass-header", 2) == 1
+	md := metadata.Pairs("x", "y")
+	if bypass {
+		md.Set(s2scommon.RequestTranslationHeaderName, "false")
+	}
+	ctx := metadata.NewIncomingContext(context.Background(), md)
+	req, resp := &workflowservice.DescribeNamespaceRequest{Namespace: "a"}, &workflowservice.DescribeNamespaceResponse{}
+	invoked := 0
+	out, err := ic.Intercept(ctx, req, &grpc.UnaryServerInfo{FullMethod: full}, func(ctx context.Context, r any) (any, error) {
+		invoked++
+		verifAssert(sa.resps == 0 && ns.resps == 0, "dispatch:no-response-translation-before-the-handler")
+		return resp, nil
+	})
+	verifAssert(invoked == 1 && err == nil && out == any(resp), "dispatch:handler-invoked-once-and-its-response-returned")
+	switch {
+	case bypass || service == 2:
+		verifReach("dispatch-untranslated-call")
+		verifAssert(sa.reqs+sa.resps+ns.reqs+ns.resps == 0, "dispatch:bypassed-or-foreign-call-is-not-translated")
+	case service == 0:
+		verifReach("dispatch-workflow-service")
+		verifAssert(sa.reqs == 0 && sa.resps == 0, "dispatch:search-attribute-keys-of-workflow-service-calls-are-left-alone(request-and-response)")
+		verifAssert(ns.reqs == 1 && ns.resps == 1, "dispatch:namespace-names-translated-once-each-way")
+	default:
+		verifReach("dispatch-admin-service")
+		verifAssert(sa.reqs == 1 && sa.resps == 1, "dispatch:search-attribute-keys-of-admin-calls-translated-once-each-way")
+		verifAssert(ns.reqs == 1 && ns.resps == 1, "dispatch:namespace-names-translated-once-each-way")
+	}
+	if ns.reqs == 1 {
+		verifAssert(ns.sawReq == any(req) && ns.sawResp == any(resp), "dispatch:translators-see-the-request-and-the-handlers-response")
+	}
 }
